@@ -2,7 +2,7 @@
 A scheduler built on sys.settrace stops every thread before each source line of the component's file; the component's
 _lock is replaced (after construction) by a cooperative lock that reports "blocked" to the scheduler.  All schedules up to
 a preemption bound are explored by DFS over the scheduler's choice points.
-stdin: JSON list of scenarios {"kind": "breaker"|"budget", "setup": [...], "clock": t, "threads": [[op, ...], ...], "bound": b,
+stdin: JSON list of scenarios {"kind": "breaker"|"budget", "setup": [...], "clock": t, ["thread_clocks": [t0, t1, ...],] "threads": [[op, ...], ...], "bound": b,
 "max_schedules": n}; stdout: per scenario {"schedules": n, "outcomes": [...], "sequential": [...], "deadlocks": n, "truncated": bool}."""
 import itertools
 import json
@@ -52,6 +52,7 @@ class Sched:
         self.done = set()
         self.branch = []
         self.deadlock = False
+        self.clocks = {}
 
     def runnable(self):
         return [t for t in self.threads if t not in self.done and t not in self.blocked]
@@ -82,6 +83,8 @@ class Sched:
                 if self.deadlock:
                     raise Deadlock()
                 self.cv.wait(timeout=5)
+            if tid in self.clocks:
+                CLOCK.ticks = self.clocks[tid]      # each thread reads its own clock value (scenario key "thread_clocks")
 
     def finish(self, tid):
         with self.cv:
@@ -175,6 +178,8 @@ def run_schedule(sc, choices):
     obj = mk_object(sc)
     obj._lock = CoopLock(s)
     target = FILES[sc["kind"]]
+    if sc.get("thread_clocks"):
+        s.clocks = {"t%d" % i: t for i, t in enumerate(sc["thread_clocks"])}
     results = {}
     errors = []
 
@@ -195,6 +200,8 @@ def run_schedule(sc, choices):
                     if s.deadlock:
                         raise Deadlock()
                     s.cv.wait(timeout=5)
+                if tid in s.clocks:
+                    CLOCK.ticks = s.clocks[tid]
             sys.settrace(tracer)
             try:
                 results[tid] = [do_op(obj, op) for op in ops]
@@ -231,6 +238,8 @@ def sequential_outcomes(sc):
         pos = [0] * len(sc["threads"])
         res = [[] for _ in sc["threads"]]
         for i in order:
+            if sc.get("thread_clocks"):
+                CLOCK.ticks = sc["thread_clocks"][i]
             res[i].append(do_op(obj, sc["threads"][i][pos[i]]))
             pos[i] += 1
         o = [res, summary(obj, sc["kind"])]
